@@ -2,6 +2,9 @@ package main
 
 import (
 	"fmt"
+	"go/token"
+	"go/types"
+	"strings"
 
 	"golang.org/x/tools/go/ssa"
 )
@@ -9,11 +12,13 @@ import (
 func init() { registry["C03"] = checkC03 }
 
 func checkC03(c *Ctx, r *Report) {
-	r.Explain = "Decides structural necessary conditions of 'effective access = admin grants ∪ grants of current documents': (R1) a committed write invalidates exactly the principals whose grants changed — the success return of the write path is dominated by MarkPrincipalsChanged, whose arguments derive from the changed-principal lists computed by applying the sync function's access and role grants to the document; (R2) only the write path and resync apply grants to a document, and on the write path grants are applied after the sync function has been (re-)evaluated for the revision that ends up current — no evaluation is reachable after grants were applied; (R3) invalidation reaches the authenticator for every changed principal (channels for each name in the first list, roles for each name in the second), and an invalidation marker, once set, is persisted rather than cancelled; (R4) a principal whose computed channels or roles are missing/invalidated is recomputed when loaded, the recomputation's failures propagate (a principal is never returned with stale or empty sets), and the recomputed sets include the explicit (admin) grants and the public channel. Not decided: that the recomputation query returns the right grants, order independence, role inheritance arithmetic."
+	r.Explain = "Decides structural necessary conditions of 'effective access = admin grants ∪ grants of current documents': (R1) a committed write invalidates exactly the principals whose grants changed — the success return of the write path is dominated by MarkPrincipalsChanged, whose arguments derive from the changed-principal lists computed by applying the sync function's access and role grants to the document; (R2) only the write path and resync apply grants to a document, and on the write path grants are applied after the sync function has been (re-)evaluated for the revision that ends up current — no evaluation is reachable after grants were applied; (R3) invalidation reaches the authenticator for every changed principal (channels for each name in the first list, roles for each name in the second), and an invalidation marker, once set, is persisted rather than cancelled; (R4) a principal whose computed channels or roles are missing/invalidated is recomputed when loaded, the recomputation's failures propagate (a principal is never returned with stale or empty sets), and the recomputed sets include the explicit (admin) grants and the public channel; (R5) the sync function's channel, access-grant and role-grant outputs keep their identity on the way to the document (traced positionally through the wrappers — the two grant maps have the same type, so a swap compiles); (R6) the sub-document fast path of channel invalidation selects the per-collection slot exactly as IsDefaultCollection does, for all valuations. Not decided: that the recomputation query returns the right grants, order independence, role inheritance arithmetic."
 	c03R1(c, r)
 	c03R2(c, r)
 	c03R3(c, r)
 	c03R4(c, r)
+	c03R5(c, r)
+	c03R6(c, r)
 }
 
 func c03R1(c *Ctx, r *Report) {
@@ -241,4 +246,216 @@ func c03R4(c *Ctx, r *Report) {
 		hasExplicit := len(c.Calls(fn, false, nameHasSuffix(".ExplicitRoles"))) > 0
 		r.Check("C03-R4", "fn=(*auth.Authenticator).RebuildRoles includes=explicit-roles", c.Pos(fn.Pos()), hasExplicit, "admin-assigned roles are part of the recomputed set", "recomputed roles omit the admin-assigned roles")
 	}
+}
+
+// syncOutputRoles: which outputs of the sync-function evaluation (getChannelsAndAccess results: 0 channels, 1 access grants,
+// 2 role grants) the value v carries, following the wrappers runSyncFn / recalculateSyncFnForActiveRev *positionally* (result j of a
+// wrapper is traced to the definitions of that wrapper's j-th result), through phis and local cells.
+func syncOutputRoles(c *Ctx, v ssa.Value, seen map[ssa.Value]bool, depth int, out map[int]bool) {
+	if v == nil || seen[v] || depth > 12 {
+		return
+	}
+	seen[v] = true
+	v = unwrapLoadFree(v)
+	switch x := v.(type) {
+	case *ssa.Extract:
+		call, ok := x.Tuple.(*ssa.Call)
+		if !ok {
+			return
+		}
+		name := c.CalleeName(call)
+		switch name {
+		case "(*db.DatabaseCollectionWithUser).getChannelsAndAccess":
+			out[x.Index] = true
+		case "(*db.DatabaseCollectionWithUser).runSyncFn", "(*db.DatabaseCollectionWithUser).recalculateSyncFnForActiveRev":
+			if w := call.Call.StaticCallee(); w != nil {
+				for _, d := range resultDefs(w, x.Index) {
+					syncOutputRoles(c, d.Val, seen, depth+1, out)
+				}
+			}
+		}
+	case *ssa.Phi:
+		for _, e := range x.Edges {
+			syncOutputRoles(c, e, seen, depth+1, out)
+		}
+	case *ssa.UnOp:
+		if ad, ok := loadOf(x); ok {
+			for _, st := range storesInto(rootAddr(ad)) {
+				syncOutputRoles(c, st.Val, seen, depth+1, out)
+			}
+		}
+	case *ssa.ChangeType:
+		syncOutputRoles(c, x.X, seen, depth+1, out)
+	case *ssa.MakeInterface:
+		syncOutputRoles(c, x.X, seen, depth+1, out)
+	}
+}
+
+// C03-R5: the three outputs of the sync function keep their identity on the way to the document: channels feed updateChannels,
+// access() grants feed Access.updateAccess, role() grants feed RoleAccess.updateAccess — also through the wrappers that re-evaluate
+// the sync function for a promoted revision. (Both grant maps have the same Go type, so a swap compiles.)
+func c03R5(c *Ctx, r *Report) {
+	r.Rule("C03-R5", "E3 positional def-use through wrappers", "on the write path and in resync, updateChannels / Access.updateAccess / RoleAccess.updateAccess receive exactly the channels / access / role output of the sync-function evaluation (traced positionally through runSyncFn and recalculateSyncFnForActiveRev)", 6)
+	accF := c.Field("db.SyncData", "Access")
+	roleF := c.Field("db.SyncData", "RoleAccess")
+	if accF == nil || roleF == nil {
+		r.Fail("C03-R5", "anchor db.SyncData.Access/RoleAccess", "-", "fields not found")
+		return
+	}
+	names := []string{"channels", "access", "roles"}
+	for _, fnName := range []string{"(*db.DatabaseCollectionWithUser).documentUpdateFunc", "(*db.DatabaseCollectionWithUser).getResyncedDocument"} {
+		top := c.Func(fnName)
+		if top == nil {
+			r.Fail("C03-R5", "anchor "+fnName, "-", "function not found")
+			continue
+		}
+		for _, fn := range append([]*ssa.Function{top}, top.AnonFuncs...) {
+			for _, call := range c.Calls(fn, false, nameIs("(*db.Document).updateChannels", "(*db.UserAccessMap).updateAccess")) {
+				want := 0
+				args := callArgs(call)
+				arg := args[len(args)-1]
+				if CalleeIdent(call) == "updateAccess" {
+					fa, ok := call.Common().Args[0].(*ssa.FieldAddr)
+					if !ok {
+						r.Fail("C03-R5", fmt.Sprintf("fn=%s sink=updateAccess receiver", shortName(fnName)), c.Pos(call.Pos()), "receiver of updateAccess is not a field of the document (undecided)")
+						continue
+					}
+					switch structField(fa.X.Type(), fa.Field) {
+					case accF:
+						want = 1
+					case roleF:
+						want = 2
+					default:
+						continue
+					}
+				}
+				got := map[int]bool{}
+				syncOutputRoles(c, arg, map[ssa.Value]bool{}, 0, got)
+				ok := len(got) == 1 && got[want]
+				var gs []string
+				for i := 0; i < 3; i++ {
+					if got[i] {
+						gs = append(gs, names[i])
+					}
+				}
+				r.Check("C03-R5", fmt.Sprintf("fn=%s sink=%s receives=sync-function-%s-output", shortName(fnName), names[want], names[want]), c.Pos(call.Pos()), ok,
+					"traced positionally to result "+fmt.Sprint(want)+" of the evaluation", fmt.Sprintf("the document's %s are assigned from the sync function's %v output (the access and role grant maps have the same type, so a swapped position compiles): grantees get neither the channel nor the role the revision confers", names[want], gs))
+			}
+		}
+	}
+}
+
+// C03-R6: per-collection invalidation slot. The default collection's channel invalidation lives in the principal's top-level
+// channel_inval_seq, every other collection's under collection_access.<scope>.<collection>; the sub-document fast path of
+// InvalidateChannels must choose between them exactly as base.IsDefaultCollection does (which the full-document path and every
+// reader use). Decided by evaluating both decisions for every valuation of (scope is the default scope, collection is the default
+// collection).
+func c03R6(c *Ctx, r *Report) {
+	r.Rule("C03-R6", "E6 cmpeval + feasible-edge walk (sibling agreement)", "InvalidateChannels' sub-document path selects the top-level invalidation slot iff base.IsDefaultCollection(scope, collection), for all four valuations", 2)
+	isDef := c.Func("base.IsDefaultCollection")
+	inv := c.Func("(*auth.Authenticator).InvalidateChannels")
+	if isDef == nil || inv == nil {
+		r.Fail("C03-R6", "anchor base.IsDefaultCollection / InvalidateChannels", "-", "function not found")
+		return
+	}
+	defScope, defColl := "", ""
+	if k, ok := c.SSAPkg["base"].Pkg.Scope().Lookup("DefaultScope").(*types.Const); ok {
+		defScope = constantString(k)
+	}
+	if k, ok := c.SSAPkg["base"].Pkg.Scope().Lookup("DefaultCollection").(*types.Const); ok {
+		defColl = constantString(k)
+	}
+	if defScope == "" || defColl == "" {
+		r.Fail("C03-R6", "anchor base.DefaultScope/DefaultCollection", "-", "constants not found")
+		return
+	}
+	// the path argument of SubdocInsert
+	var pathPhi *ssa.Phi
+	for _, call := range c.Calls(inv, false, nameHasSuffix(".SubdocInsert")) {
+		a := call.Common().Args
+		for _, x := range a {
+			if p, ok := x.(*ssa.Phi); ok && types.Identical(p.Type().Underlying(), types.Typ[types.String]) {
+				pathPhi = p
+			}
+		}
+	}
+	if pathPhi == nil {
+		r.Fail("C03-R6", "fn=InvalidateChannels subdoc-path", c.Pos(inv.Pos()), "the sub-document path is no longer chosen between two forms (undecided)")
+		return
+	}
+	derivesFromCall := func(v ssa.Value, suffix string) bool {
+		return DependsOn(v, func(x ssa.Value) bool {
+			cc, ok := x.(*ssa.Call)
+			return ok && strings.HasSuffix(c.CalleeName(cc), suffix)
+		})
+	}
+	bad := ""
+	n := 0
+	for _, sDef := range []bool{true, false} {
+		for _, cDef := range []bool{true, false} {
+			n++
+			// ground truth
+			const symD, symS, symC = 1, 2, 3
+			rank := []int{0, 1, 2, 3}
+			if sDef {
+				rank[symS] = 1
+			}
+			if cDef {
+				rank[symC] = 1
+			}
+			truth, left := evalWith(c, isDef, rank, func(ev *cmpEval) {
+				ev.strSyms = map[string]aSym{defScope: {symD}, defColl: {symD}}
+			}, aSym{symS}, aSym{symC})
+			tb, isB := truth.(aBool)
+			if left != "" || !isB {
+				r.Fail("C03-R6", "fn=base.IsDefaultCollection evaluable", c.Pos(isDef.Pos()), "left the comparison-only fragment: "+left)
+				return
+			}
+			if bool(tb) != (sDef && cDef) && bad == "" {
+				bad = fmt.Sprintf("IsDefaultCollection(scopeIsDefault=%v, collectionIsDefault=%v) = %v", sDef, cDef, tb)
+			}
+			// the fast path's choice
+			edges := FeasiblePhiEdges(inv, pathPhi, func(cond ssa.Value) (bool, bool) {
+				b, ok := cond.(*ssa.BinOp)
+				if !ok || (b.Op != token.EQL && b.Op != token.NEQ) {
+					return false, false
+				}
+				var other ssa.Value
+				if s, isK := constString(b.X); isK && (s == defScope || s == defColl) {
+					other = b.Y
+				} else if s, isK := constString(b.Y); isK && (s == defScope || s == defColl) {
+					other = b.X
+				} else {
+					return false, false
+				}
+				var eq bool
+				switch {
+				case derivesFromCall(other, ".ScopeName"):
+					eq = sDef
+				case derivesFromCall(other, ".CollectionName"):
+					eq = cDef
+				default:
+					return false, false
+				}
+				if b.Op == token.NEQ {
+					return !eq, true
+				}
+				return eq, true
+			})
+			topLevel, nested := false, false
+			for _, e := range edges {
+				if _, isK := constString(e); isK {
+					topLevel = true
+				} else {
+					nested = true
+				}
+			}
+			want := sDef && cDef
+			if (topLevel != want || nested == want) && bad == "" {
+				bad = fmt.Sprintf("scope is default=%v, collection is default=%v: sub-document path top-level=%v per-collection=%v, IsDefaultCollection=%v", sDef, cDef, topLevel, nested, want)
+			}
+		}
+	}
+	r.Check("C03-R6", "fn=base.IsDefaultCollection = (scope and collection are the defaults)", c.Pos(isDef.Pos()), bad == "" || !strings.HasPrefix(bad, "IsDefaultCollection("), "holds for all 4 valuations", bad)
+	r.Check("C03-R6", "fn=(*auth.Authenticator).InvalidateChannels subdoc-slot agrees-with=IsDefaultCollection", c.Pos(pathPhi.Pos()), bad == "", fmt.Sprintf("agrees for all %d valuations", n), "the sub-document fast path writes the invalidation marker to a slot the principal's readers do not consult for that collection: the cached channel set of that collection is never invalidated and grants/revocations from its documents never reach the principal: "+bad)
 }
